@@ -87,7 +87,7 @@ PROPS = {
         "jobs": match_jobs("C05", 150000, 12000000),
         "replay": replay_matcher("match", ["--props", "C05"]),
         "rule": RULE_MATCH + "; anchored generator weighted 50%",
-        "require": {"any": {"c05.related": 10000, "c05.unrelated": 10000, "c05.substring-position-checked": 1000, "profile.anchored": 1000}},
+        "require": {"any": {"c05.related": 10000, "c05.unrelated": 10000, "c05.substring-position-checked": 1000, "profile.anchored": 1000, "c05.calls-on-converted-strings": 10000}},
         "assumptions": ["same projection as C01", "U+000B excluded"],
     },
     "C14": {
@@ -506,3 +506,6 @@ _c02_base = PROPS["C02"]["jobs"]
 PROPS["C02"]["jobs"] = lambda tier: _c02_base(tier) + [
     grid_job("grid-miri", "miri", 6 if tier != "thorough" else 16, 1 if tier != "thorough" else 4, 50 if tier != "thorough" else 2400, 6000 if tier != "thorough" else 110000, miriflags=MIRI_SB)]
 PROPS["C02"]["rule"] += "; the back-pointer walk additionally runs under Miri on a size grid"
+
+for _p in ("C11", "C12", "C19", "C20"):
+    PROPS[_p]["require"]["any"]["directed.destructor-panic.unwound-through-the-api"] = 5
